@@ -391,5 +391,14 @@ def r12_9(ctx):
                 if kind in ("return", "fallthrough") and "sync" not in {x[1] for x in stt if x[0] == "ev"}]
     (ctx.bad(construct, f"returns without syncing under {skipping[0]}: changed options are not flagged", f.loc()) if skipping else ctx.ok(construct, f.loc()))
 
+def r12_10(ctx):
+    """R12.10 auto.conf is read back record by record: _load_old_vals cuts the file on the newline only (C02 R02.11) - a value containing
+    U+2028 or a form feed would otherwise have no old value and its trigger file would be touched by every sync."""
+    from .common import no_splitlines
+    no_splitlines(ctx, ["esp_kconfiglib.core"], "the record of a value containing such a character is cut in two: no old value is recovered and the option's "
+                  "trigger file is touched by every sync")
+    ctx.ok("Kconfig._load_old_vals/auto.conf is cut on the newline only", ctx.repo.func(f"{CORE}:Kconfig._load_old_vals").loc(), nontrivial=False)
+
+
 def rules():
-    return [("R12.9", r12_9, 1), ("R12.8", r12_8, 1), ("R12.7", r12_7, 2), ("R12.1", r12_1, 6), ("R12.2", r12_2, 2), ("R12.3", r12_3, 1), ("R12.4", r12_4, 6), ("R12.5", r12_5, 4), ("R12.6", r12_6, 4)]
+    return [("R12.10", r12_10, 1), ("R12.9", r12_9, 1), ("R12.8", r12_8, 1), ("R12.7", r12_7, 2), ("R12.1", r12_1, 6), ("R12.2", r12_2, 2), ("R12.3", r12_3, 1), ("R12.4", r12_4, 6), ("R12.5", r12_5, 4), ("R12.6", r12_6, 4)]
